@@ -69,7 +69,12 @@ struct HSel : Harness {
       Prng lr(p.getu("data.seed") ^ 0x5bd1e995u, PURPOSE_WORKLOAD);
       if (layout == 1) { int nb = 1 + (int)lr.below(5); std::vector<std::vector<double>> ctr(nb, std::vector<double>(c.p)); for (auto &q : ctr) for (double &v : q) v = lr.uniform(-40, 40); for (auto &r : c.X) { auto &q = ctr[lr.below(nb)]; for (int j = 0; j < c.p; j++) r[j] = r[j] * 0.3 + q[j]; } }
       else if (layout == 2) { int nd = 1 + (int)lr.below(std::max(1, c.n / 2)); for (int d = 0; d < nd; d++) { size_t a = lr.below(c.n), b = lr.below(c.n); c.X[a] = c.X[b]; } }
-      else if (layout == 3) { for (int j = 0; j < c.p; j++) { double off = lr.uniform(-200, 200); for (auto &r : c.X) r[j] += off; } }
+      else if (layout == 3) {  // cloud far from the origin: location up to 1e8 x spread (time stamps, absolute temperatures); distances are translation invariant.
+        // not for the cosine "distance", which is not: far from the origin all cosines tie at 1
+        double far = c.metric == 2 ? 200.0 : pow(10.0, lr.chance(0.3) ? lr.uniform(1.5, 4.0) : lr.uniform(4.0, 9.0));
+        for (int j = 0; j < c.p; j++) { double off = (lr.chance(0.5) ? 1 : -1) * far * lr.uniform(0.3, 1.0); for (auto &r : c.X) r[j] += off; }
+        if (far > 1e5) o.counters["probe.far_from_origin"]++;
+      }
       if (unit != 1.0) for (auto &r : c.X) for (double &v : r) v *= unit;
       o.counters["layout." + std::to_string(layout)]++;
       if (p.geti("large", 0)) o.counters["probe.large_operand"]++;
@@ -152,7 +157,10 @@ struct HSel : Harness {
           if (cnt[q] == 0) { o.counters["probe.empty_cluster"]++; continue; }  // documented: re-seeded from a random object
           for (int j = 0; j < c.p; j++) { LD mq = mean[q][j] / cnt[q]; if (fabsl(mq - B.cent[q][j]) > 1e-9L * (1 + fabsl(mq))) { char m[240]; snprintf(m, sizeof m, "KMeans (init %d): centroid %d coordinate %d is %.12g, the mean of its %zu members is %.12Lg", c.init, q, j, B.cent[q][j], cnt[q], mq); o.fail("centroid-not-mean", m); break; } }
         }
-        if (!o.violation && !cap_possible) {
+        // (a run cut by the sweep cap of 100 used to be exempted here; in 23000 thorough k-means runs on the unchanged tree the cap was never
+        //  reached, while a labelling defect that keeps the sweeps from settling hid behind the exemption - the property makes no exception)
+        if (cap_possible) o.counters["probe.iteration_cap_possible"]++;
+        if (!o.violation) {
           LD slack = 2 * sqrtl((LD)c.p) * 1e-3L;
           for (int i = 0; i < c.n && !o.violation; i++) {
             LD own = metric_ld(c.X[i], B.cent[B.labels[i]], 0), mn = INFINITY;
@@ -160,7 +168,7 @@ struct HSel : Harness {
             if (own > mn + slack) { char m[240]; snprintf(m, sizeof m, "KMeans (init %d): object %d is at %.6Lg from its centroid but %.6Lg from the nearest one", c.init, i, own, mn); o.fail("not-nearest-centroid", m); }
           }
           o.counters["probe.nearest_verified"]++;
-        } else if (cap_possible) o.counters["skipped.iteration_cap_possible"]++;
+        }
       }
     }
     if (o.violation && !p.has("sched.switches") && nsw && nsw < 6000) o.switch_list = switches_text(sw, nsw);
